@@ -39,6 +39,8 @@ type Req struct {
 	FailVisit int        `json:"failvisit,omitempty"` // walk: the callback fails at its n-th call (counted over all goroutines)
 	FailNames []string   `json:"failnames,omitempty"` // walk: the callback fails at every node with one of these names
 	PreDoc    string     `json:"predoc,omitempty"`    // mkdir/verify in a worker-owned jail: directories made (simple mode) before the call
+	NodeIdx   int        `json:"nodeidx,omitempty"`   // From-Root: operate on the k-th node in pre-order instead of the root (-1: nil)
+	PreOps    []string   `json:"preops,omitempty"`    // From-Root: operations performed on the same tree first ("output", "walk", "walkiter", "json")
 	Record    bool       `json:"record,omitempty"`    // record the hook events of this call
 	Delays    int64      `json:"delays,omitempty"`    // seed for random delays at hook points (0 = none)
 	Plan      []PlanStep `json:"plan,omitempty"`      // gate: hold goroutines at hook points until the plan allows them
